@@ -29,8 +29,9 @@ type Spec struct {
 //	the unit is the indentation of the first indented line; level = indent/unit + 1 (+1 when roots are headings)
 //	malformed: no bullet, empty text, indentation not a multiple of the unit, tabs and spaces mixed in one
 //	           indentation, more than one level deeper than the item before, item before the first root
+//	           (the same holds for consecutive indented lines that use different characters)
 //	out of domain: no root at all; heading roots mixed with bullet roots; indentation characters that differ
-//	           between lines; a heading that is not at the start of its line
+//	           between root blocks (separated by an unindented bullet line); a heading that is not at the start of its line
 func ParseSpec(doc string) Spec {
 	lines := strings.Split(doc, "\n")
 	var (
@@ -38,6 +39,7 @@ func ParseSpec(doc string) Spec {
 		stack    []*Node
 		unit     int
 		indentCh byte
+		runCh    byte // indentation character of the current run of indented lines (reset by an unindented bullet line)
 		heading  = -1 // -1 unknown, 0 bullet roots, 1 heading roots
 		prevLv   int
 		items    []string
@@ -85,11 +87,20 @@ func ParseSpec(doc string) Spec {
 		if text == "" {
 			return bad("empty-text", line, no)
 		}
+		if len(indent) == 0 {
+			// the statement's "mixes tabs and spaces" is judged line by line and inside one run of indented
+			// lines; whether documents may switch the character between root blocks is left open (out of domain)
+			runCh = 0
+		}
 		if len(indent) > 0 {
+			if runCh != 0 && runCh != indent[0] {
+				return bad("mixed-indent-lines", line, no)
+			}
+			runCh = indent[0]
 			if indentCh == 0 {
 				indentCh = indent[0]
 			} else if indentCh != indent[0] {
-				return ood("indentation character changes between lines")
+				return ood("indentation character changes between root blocks")
 			}
 			if unit == 0 {
 				unit = len(indent)
